@@ -149,6 +149,20 @@ func run(repo, verif, prop, tier, only, dump string, list, verbose bool, timeout
 			}
 		}
 	}
+	// closure obligations (whole-package SSA scans)
+	for _, cr := range V.runClosures(prop) {
+		o := &Obligation{Name: cr.Name, Tags: cr.Tags, Func: "(package)", Kind: "closure", Text: cr.Text, Goal: True, Path: True}
+		r := &oblResult{O: o, Subgoals: 1}
+		if cr.OK {
+			r.Status = "discharged"
+			r.Backend = "ssa-scan"
+			r.Detail = fmt.Sprintf("%d sites, all inside the listed functions", cr.Sites)
+		} else {
+			r.Status = "failed"
+			r.Detail = cr.Detail
+		}
+		results = append(results, r)
+	}
 	if list {
 		for _, r := range results {
 			fmt.Printf("%s  (%d subgoals) %s\n", r.O.String(), r.Subgoals, r.Status)
